@@ -9,6 +9,7 @@ import (
 	"fmt"
 	"os"
 	"os/exec"
+	"path/filepath"
 	"runtime"
 	"sort"
 	"strconv"
@@ -319,6 +320,38 @@ func summarise(run *common.Run, cases []Case, results []caseResult, assumptions 
 		"samples":                  samples,
 		"exhaustive":               complete,
 		"exhaustive_within_bounds": complete,
+	}
+	// E1_FOLD=<suffix>: another e1 program has just explored a further part of the same property and
+	// left evidence/<prop><suffix>.json (its violations were reported by itself): account for it here
+	if suf := os.Getenv("E1_FOLD"); suf != "" {
+		if b, err := os.ReadFile(filepath.Join(common.Root(), "evidence", run.Prop+suf+".json")); err == nil {
+			var ev struct {
+				Tier     string         `json:"tier"`
+				Coverage map[string]any `json:"coverage"`
+				Assume   []string       `json:"assumptions"`
+			}
+			if json.Unmarshal(b, &ev) == nil && ev.Tier == run.Tier {
+				num := func(k string) int64 { f, _ := ev.Coverage[k].(float64); return int64(f) }
+				for _, k := range []string{"states", "transitions", "traces_validated_against_impl", "evaluations", "executions", "pruned_by_fingerprint"} {
+					cov[k] = cov[k].(int64) + num(k)
+				}
+				cov["distinct_nontrivial"] = distinctOutcomes + int(num("distinct_nontrivial"))
+				cov["scenarios"] = len(results) + int(num("scenarios"))
+				if ps, ok := ev.Coverage["per_scenario"].([]any); ok {
+					cov["per_scenario"] = append(perCase, ps...)
+				}
+				if ex, _ := ev.Coverage["exhaustive"].(bool); !ex {
+					cov["exhaustive"], cov["exhaustive_within_bounds"] = false, false
+					run.Exhaustive = false
+				}
+				if bt, _ := ev.Coverage["min_deviation_bound"].(string); bt != "" && bt != "unbounded" {
+					if k, err := strconv.Atoi(bt); err == nil && k < minBound {
+						cov["min_deviation_bound"] = bt
+					}
+				}
+				assumptions = append(assumptions, ev.Assume...)
+			}
+		}
 	}
 	run.Finish(cov, assumptions)
 }
